@@ -2,10 +2,14 @@
 C12 — centring moves exactly the requested point to the image centre.
 
 proofs : lean/PyAbel/Props/C12.lean (every axis length, origin, crop mode);
-         lean/PyAbel/Props/C12Frac.lean (order-1 sub-pixel shift conserves the total and moves the first moment by exactly δ·total)
-K      : set_center / center_image vs the Lean model, bit-for-bit on labelled images (whole-pixel path,
-         order=0 rounding, center_image trimming)
-S      : brute-force translate reference + intensity/centroid conservation for fractional origins
+         lean/PyAbel/Props/C12Frac.lean (order-1 sub-pixel shift conserves the total and moves the first moment by exactly δ·total);
+         lean/PyAbel/Props/C12Explicit.lean (center_image with an explicit whole-pixel origin — trimming, conversion of the origin from
+         the input frame, centring, second squaring: the requested input pixel is the centre pixel of the output whenever the request
+         is not refused, and it is refused exactly when the trimming removes that pixel; square outputs)
+K      : set_center / center_image vs the Lean models, bit-for-bit on labelled images (whole-pixel path,
+         order=0 rounding, center_image trimming, center_image with explicit origins under every crop / odd_size / square)
+S      : brute-force translate reference + intensity/centroid conservation for fractional origins; separability; flags under every crop,
+         axes selection and origin method; integer images; explicit origins land at the centre or are refused
 """
 import itertools
 import json
@@ -131,6 +135,46 @@ def correspondence(ck: Check, tier):
         ref = im[t[0]:t[0] + t[1], t[2]:t[2] + t[3]]
         if out.shape != ref.shape or not np.array_equal(out, ref):
             ck.disagree("K.trim", case, f"center_image returned shape {out.shape}, model keeps {ref.shape}")
+
+
+def corr_explicit(ck, tier):
+    """center_image with explicit whole-pixel origins (coordinates of the input image, also counted from the end) vs the Lean model
+    `centerImageExplicit` — the object of Props/C12Explicit.lean — on labelled images: every output pixel, or the refusal"""
+    from abel.tools.center import center_image
+    rng = np.random.default_rng(seed() + 121212)
+    lines, cases = [], []
+    for _ in range(400 if tier == "quick" else 4000):
+        r, c = (int(v) for v in rng.integers(1, 13, size=2))
+        odd, sq = bool(rng.integers(0, 2)), bool(rng.integers(0, 2))
+        crop = int(rng.integers(0, 3))
+        o0, o1 = int(rng.integers(-r, r)), int(rng.integers(-c, c))
+        lines.append(f"explicit {crop} {r} {c} {int(odd)} {int(sq)} {o0} {o1}")
+        cases.append((r, c, odd, sq, crop, o0, o1))
+    for (r, c, odd, sq, crop, o0, o1), rep in zip(cases, drive(lines)):
+        ck.count(("explicit", r % 2, c % 2, (r > c) - (r < c), odd, sq, crop, o0 < 0, o1 < 0), suite="K.explicit")
+        im = labelled(r, c)
+        case = dict(shape=[r, c], odd_size=odd, square=sq, crop=CROPS[crop], method=[o0, o1])
+        try:
+            out = center_image(im, method=(o0, o1), odd_size=odd, square=sq, crop=CROPS[crop])
+            got = out
+        except ValueError:
+            got = "refuse"
+        except Exception as e:
+            got = f"exc:{type(e).__name__}"
+        if rep.strip() == "ok refuse":
+            if not isinstance(got, str):
+                ck.disagree("K.explicit", case, f"the model refuses this origin (it lies in what the trimming removes), the implementation returned shape {got.shape}")
+            continue
+        if isinstance(got, str):
+            ck.disagree("K.explicit", case, f"implementation: {got}; the model returns an image")
+            continue
+        head, rs, cs = [t.strip() for t in rep[3:].split("|")]
+        rs = [int(v) for v in rs.split()] if rs else []
+        cs = [int(v) for v in cs.split()] if cs else []
+        ref = np.array([[im[i, j] if (i >= 0 and j >= 0) else 0 for j in cs] for i in rs], dtype=float).reshape(len(rs), len(cs))
+        if got.shape != ref.shape or not np.array_equal(np.asarray(got, float), ref):
+            ck.disagree("K.explicit", case, f"center_image returned shape {got.shape}, the model {ref.shape}" +
+                        ("" if got.shape != ref.shape else " with other pixels"))
 
 
 # --------------------------------------------------------------------------------------------- oracle
@@ -505,12 +549,14 @@ def run(tier):
     ck.cov["source_fingerprint"] = source_fingerprint(["abel/tools/center.py"])
     ck.proofs("PyAbel.Props.C12")
     ck.proofs("PyAbel.Props.C12Frac")
+    ck.proofs("PyAbel.Props.C12Explicit")
     ok, log = ensure_driver()
     if not ok:
         ck.broken.append(dict(kind="proof", module="pyabel_drv", why="driver build failed", log=log[-1500:]))
     else:
         correspondence(ck, tier)
         corr_shiftlin(ck, tier)
+        corr_explicit(ck, tier)
     oracle(ck, tier, deep=bool(ck.broken) or tier == "thorough")
     return ck.finish()
 
